@@ -50,6 +50,7 @@ def main():
             exprs.append((f"A[1, {j}]", lambda A, j=j: A[1, j], lambda D, j=j: D[1, j]))
         for s1, s2 in itertools.product(slices, slices):
             exprs.append((f"A[{s1}, {s2}]", lambda A, s1=s1, s2=s2: A[s1, s2].to_dense(), lambda D, s1=s1, s2=s2: D[s1, s2]))
+            exprs.append((f"A[{s1}, {s2}].shape", lambda A, s1=s1, s2=s2: np.array(A[s1, s2].shape), lambda D, s1=s1, s2=s2: np.array(D[s1, s2].shape)))
             exprs.append((f"A[{s1}, {s2}] @ X", lambda A, s1=s1, s2=s2: A[s1, s2] @ np.ones((D[s1, s2].shape[1], 2)), lambda D, s1=s1, s2=s2: D[s1, s2] @ np.ones((D[s1, s2].shape[1], 2))))
             exprs.append((f"X @ A[{s1}, {s2}]", lambda A, s1=s1, s2=s2: np.ones((2, D[s1, s2].shape[0])) @ A[s1, s2], lambda D, s1=s1, s2=s2: np.ones((2, D[s1, s2].shape[0])) @ D[s1, s2]))
             exprs.append((f"A[{s1}, {s2}] @ Xc", lambda A, s1=s1, s2=s2: A[s1, s2] @ (1j * np.ones((D[s1, s2].shape[1], 2))), lambda D, s1=s1, s2=s2: D[s1, s2] @ (1j * np.ones((D[s1, s2].shape[1], 2)))))
